@@ -635,6 +635,10 @@ func emitObs(w *caseWriter, o *pkgObs) {
 	for _, l := range o.Mtree {
 		w.line("mtree %s %s %s %s %s", xs(l.Path), xs(l.KV["type"]), xs(l.KV["mode"]), xs(l.KV["time"]), xs(l.KV["link"]))
 	}
+	// C03: the archlinux .MTREE byte for byte (up to 256 KiB), for the mtree model's reader and writer
+	if b, ok := o.Raw["mtree"]; ok && emitMtree && len(b) <= 262144 {
+		w.line("mtreeraw %s", xs(string(b)))
+	}
 	if o.Triggers != "" {
 		w.line("triggers %s", xs(o.Triggers))
 	}
@@ -708,6 +712,9 @@ func dpkgDebAccepts(o *pkgObs, raw []byte) {
 		o.Notes = append(o.Notes, "dpkg-deb --fsys-tarfile: "+strings.TrimSpace(errb.String()))
 	}
 }
+
+// emitMtree: set for C03 runs only
+var emitMtree bool
 
 // emitCpio: set for C04 runs only (the other properties sharing this emitter do not need the bytes)
 var emitCpio bool
@@ -990,6 +997,7 @@ func cmdPkg(prop, tier string, seed int64, out, statsOut, replay string) {
 	w := newCaseWriter(out)
 	st := newPkgStats()
 	emitCpio = prop == "C04"
+	emitMtree = prop == "C03"
 	if replay != "" {
 		replayPkg(replay, w, st, nil)
 	} else {
